@@ -467,3 +467,79 @@ def run(ctx, rep, tier):
     delegate(ctx, rep, tier, "C01", ("C01.l",), "C11.l", "sub-actions of conditional actions are enumerated recursively (a break nested in action-only ifs is found when the skip label is decided)",
              pred=lambda v: "all_subactions" in v.function or "embeds" in v.function)
     delegate(ctx, rep, tier, "C14", ("C14.d",), "C11.m", "integer conditions are rendered as `!= 0` comparisons (a bare shift / product as condition trips -Werror=int-in-bool-context)")
+
+
+# ---------------------------------------------------------------------------------------------------------------- C11.n / o / p
+def _values_and_names_in_c(ctx, rep, tier):
+    """User-written names and values are pasted into C. C11.o: names that become identifiers are validated (reserved words; uniqueness of the
+    generated enumerators); C11.p: string constants cannot form trigraphs; C11.n (open finding F-64): constant operands that gcc -Wall rejects
+    (zero divisor, shift count out of range, constant that does not fit its destination) and comparisons gcc lints (self comparison, bool
+    against integer, two different enums) are emitted unchecked."""
+    import ast, re
+    model = ctx.model
+    rep.rule("C11.o", "names pasted into C identifiers are validated: output names against the reserved words of C and C++, generated enumerators (enum constants, result codes) for uniqueness")
+    q = "ParseCtx.parse"
+    words = model.module_assigns.get("C_RESERVED_WORDS")
+    wl = set()
+    if words is not None:
+        for n in ast.walk(words):
+            if isinstance(n, ast.Constant) and isinstance(n.value, str):
+                wl |= set(n.value.split())
+    need = {"for", "int", "struct", "while", "bool", "true", "false", "class", "new", "delete", "namespace", "template", "this", "typename", "operator", "_Bool", "restrict", "inline"}
+    rep.check(need <= wl, "C11.o", "C_RESERVED_WORDS", f"reserved-word table covers C and C++ keywords and the stdbool macros ({len(wl)} words)", f"reserved words missing from the table: {sorted(need - wl)}")
+    rep.check(model.has(q, "if out_obj.name in C_RESERVED_WORDS:\n    raise IllegalParseTree($$m, out.children[1])"), "C11.o", q, "an output named like a reserved word is refused",
+              "`out int for;` / `out int class;` are accepted: the generated struct member is not valid C (or the header not valid C++)")
+    rep.check(model.has(q, "for enum_value in out_obj.enum_values:\n    claim_enumerator(f'{out_obj.name.upper()}_{enum_value.upper()}', out)") and
+              model.has(q, "claim_enumerator(('YIELD_' if target is self.yield_codes else 'FINISH_') + val, i)") and
+              model.has("ParseCtx.parse.claim_enumerator", "if generated_name in generated_enumerators:\n    raise DuplicateDefinitionError($$a, source, generated_name)"),
+              "C11.o", q, "every generated enumerator (enum constants as PROG_<OUT>_<VALUE>, result codes) is claimed once",
+              "`out enum{a,A} e;`, `out enum{b_c,d} a; out enum{c,d} a_b;` or an enum called yield next to a yieldcode produce the same C enumerator twice")
+    # the claimed spelling is the emitted spelling
+    emitted = model.has("CodegenCtx._generate_out_enum", "contents.add(f'{self.program_name.upper()}_{out_decl.name.upper()}_{val.upper()},')") if model.has_func("CodegenCtx._generate_out_enum") else False
+    rep.check(emitted, "C11.o", "CodegenCtx._generate_out_enum", "enumerators are emitted with the spelling that was claimed", "the emitted enumerator spelling differs from the one checked for collisions")
+    rep.rule("C11.p", "string constants are emitted with `?` escaped (no trigraph can form: -Wtrigraphs is part of -Wall)")
+    rep.check(model.has("CodegenCtx._escape_string", "if chr(i) in ['\\\\', '\"', '?']:\n    result += '\\\\' + chr(i)"), "C11.p", "CodegenCtx._escape_string", "backslash, quote and question mark are escaped",
+              "`s = \"a??/b\";` is emitted verbatim: -Wtrigraphs rejects the source (and with trigraphs enabled the constant changes)")
+    rep.rule("C11.n", "constant operands / comparisons that gcc -Wall rejects are refused or neutralised before emission")
+    gen = "CodegenCtx._generate_code_for_int_expr"
+    from ..dispatch import isinstance_chain
+    from ..srcmodel import walk_no_nested
+    arms, _ = isinstance_chain(model.func(gen).body, "intexpr")
+    aarms, _ = isinstance_chain(model.func("CodegenCtx._generate_action_implementation").body, "action")
+
+    def guarded_raise(stmts, probe):
+        """a raise (diagnosed refusal) under a condition that evaluates a constant operand (`is_literal()` / `get_literal_result()`) or inspects operand kinds"""
+        for st in stmts:
+            for n in ast.walk(st):
+                if isinstance(n, ast.If) and re.search(probe, ast.unparse(n.test)) and any(isinstance(x, ast.Raise) for x in ast.walk(n)):
+                    return True
+        return False
+
+    def where(cls_names, ctor):
+        out = []
+        for classes, body in arms:
+            if set(classes) & set(cls_names):
+                out += body
+        for c in ctor:
+            if model.has_func(c):
+                out += model.func(c).body
+        return out
+    lit = r"is_literal\(\)|get_literal_result\(\)"
+    setto = [st for classes, body in aarms if "SetTo" in classes for st in body]
+    for what, stmts, probe, example in (
+            ("constant divisor", where({"MulIntegerExpr"}, ["MulIntegerExpr.__init__"]), lit, "`x = [x / 0];` -> -Wdiv-by-zero"),
+            ("constant shift count", where({"BitShiftIntegerExpr"}, ["BitShiftIntegerExpr.__init__"]), lit, "`x = [x << 40];` -> -Wshift-count-overflow"),
+            ("constant fits its destination", setto + where({"LiteralIntegerExpr"}, []), lit + r"|int_width|maxval", "`out int{size 1} x; x = 300;` -> -Woverflow"),
+            ("comparison operand kinds", where({"CompareIntegerExpr"}, ["CompareIntegerExpr.__init__"]), r"result_type\(\)|== intexpr\.right|is intexpr\.right",
+             "`if x == x`, `(x < 2) > 3`, two different enums -> -Wtautological-compare / -Wbool-compare / -Wenum-compare")):
+        rep.check(guarded_raise(stmts, probe), "C11.n", gen, f"value-level gcc diagnostics: {what}", f"accepted and emitted unchecked: {example}; the generated source does not compile under -Wall -Werror")
+
+
+_run_nop = run
+
+
+def run(ctx, rep, tier):
+    _run_nop(ctx, rep, tier)
+    _values_and_names_in_c(ctx, rep, tier)
+    from .shared import delegate
+    delegate(ctx, rep, tier, "C18", ("C18.r",), "C11.q", "every value of the generation options yields code: range collapsing does not index an empty symbol list (--collapsed-range-length 0)")
